@@ -33,6 +33,19 @@ def build(tier, seed, pid):
         inst = gl.make_instances(tabs, rng, 2, 220, long_every=7)       # + long-axis cells: indices up to 17
     else:
         inst = gl.make_instances(tabs, rng, 5, 420, long_every=2)
+    # deep shells: the second and third segments of the traversal tables, and the steps inside a segment, only matter from indices
+    # of 2..3 upwards ((2,3,0) is the first reflection the second segment of Laue class -3 contributes that nothing else reaches);
+    # per Laue class / setting / crystal system, tables are given a shell of about 1500 lattice points
+    classes = collections.OrderedDict()
+    for i, t in enumerate(tabs):
+        classes.setdefault((t["Laue"], t["cell_choice"] == "rhombohedral", t["crystal_system"]), []).append(i)
+    for key, idx in classes.items():
+        chosen = [idx[0], rng.choice(idx)] if tier == "quick" else sorted(set([idx[0]] + rng.sample(idx, min(8, len(idx)))))
+        for i in chosen:
+            t = tabs[i]
+            m = gl.conforming_metrics(t["crystal_system"], t["cell_choice"], rng, 1)[0]
+            K, _ = gl.shell_for(m, 1500 if tier == "quick" else 3000, rng)
+            inst.append({"t": i + 1, "met": m, "K": K, "Kmin": 0, "deep": 1})
     pairs = []
     if pid == "C05":
         for (a, b) in rcentred_instances(tabs, rng, 1 if tier == "quick" else 4):
